@@ -1075,3 +1075,7 @@ mutant("c12-makespan-reward-shortcut", "C12", "R12.a", REW,
        "        super().reset()\n        self.current_makespan = self.dispatcher.schedule.makespan()",
        "        super().reset()\n        if self.dispatcher.schedule.is_complete():\n            return\n        self.current_makespan = self.dispatcher.schedule.makespan()",
        "an early return in an observer's reset skips an attribute update() advances")
+mutant("c11-est-regular-flag", "C11", "R11.e", EST,
+       "        ) and all(\n            len(machine_ops) == len(operations_by_machine[0])\n            for machine_ops in operations_by_machine\n        )\n",
+       "        )\n",
+       "the original defect D13: rectangularity flag on job lengths only")
